@@ -21,7 +21,9 @@ class Prog:
         self.locals_ = []          # declared locals in scope order (all function-level for simplicity of Ref)
         self.nsig = 0
         self.signals = []          # (name, intermediate?) of the signals assigned by G / Q statements
+        self.arrays = []           # declared local arrays (size 2)
         self.src_ranges = {}       # expr idx -> (s, e) relative to statement text; fixed up later
+        self.pending_ranges = []
 
     # ---------------- expressions: returns (idx, text, [(idx, s, e) relative])
     def atom(self, allow_sig):
@@ -33,6 +35,17 @@ class Prog:
         if allow_sig and choice < 0.35:
             c = r.choice([1, 2])
             return self.node({"k": "sig", "v": c, "x": "in%d" % c}), "in%d" % c
+        if choice < 0.45 and self.arrays and r.random() < 0.6:
+            a = r.choice(self.arrays)
+            if r.random() < 0.75 or not self.locals_:
+                iv = r.choice([0, 1, 1, 0, 2])
+                ii, it = self.node({"k": "num", "v": iv}), str(iv)
+            else:
+                ix = r.choice(self.locals_)
+                ii, it = self.node({"k": "var", "x": ix}), ix
+            idx = self.node({"k": "idx", "x": a, "l": ii})
+            self.pending_ranges = [(ii, len(a) + 1, len(a) + 1 + len(it))]
+            return idx, "%s[%s]" % (a, it)
         if choice < 0.55 and self.locals_:
             x = r.choice(self.locals_)
             return self.node({"k": "var", "x": x}), x
@@ -53,8 +66,9 @@ class Prog:
         """-> (idx, text, ranges) with ranges = [(idx, s, e)] relative to text"""
         r = self.rnd
         if depth == 0 or (r.random() < 0.25 and not cond):
+            self.pending_ranges = []
             idx, text = self.atom(allow_sig)
-            return idx, text, [(idx, 0, len(text))]
+            return idx, text, list(self.pending_ranges) + [(idx, 0, len(text))]
         kind = r.random()
         if cond and depth >= 1 and kind < 0.8:
             op = r.choice(CMPOPS + ["bool_and", "bool_or"])
@@ -64,7 +78,7 @@ class Prog:
 
         def sub(d):
             i, t, rg = self.expr(d, allow_sig)
-            if self.exprs[i - 1]["k"] in ("num", "var", "sig", "sigv"):
+            if self.exprs[i - 1]["k"] in ("num", "var", "sig", "sigv", "idx"):
                 return i, t, rg
             return i, "(" + t + ")", [(j, s + 1, e + 1) for (j, s, e) in rg]
         if kind < 0.72:
@@ -153,6 +167,33 @@ def instantiate(toks, P, seed, template, effects=False):
             si = pg.stmt({"k": "set", "x": v, "e": ei})
             lines.append((ind, "%s = %s;" % (v, et), rg, si, len("%s = " % v)))
             return si
+        if t == "DA":
+            free = [x for x in ("arr", "brr") if x not in pg.arrays]
+            if not free:
+                t = "SA"
+            else:
+                pg.arrays.append(free[0])
+                si = pg.stmt({"k": "decla", "x": free[0], "t": 2})
+                lines.append((ind, "var %s[2];" % free[0], [], si, 0))
+                return si
+        if t == "SA":
+            if not pg.arrays:
+                pg.arrays.append("arr")
+                si = pg.stmt({"k": "decla", "x": "arr", "t": 2})
+                lines.append((ind, "var arr[2];", [], si, 0))
+                return si
+            a = rnd.choice(pg.arrays)
+            if rnd.random() < 0.8 or not pg.locals_:
+                iv = rnd.choice([0, 1])
+                ii, it, irg = pg.node({"k": "num", "v": iv}), str(iv), None
+            else:
+                ix = rnd.choice(pg.locals_)
+                ii, it = pg.node({"k": "var", "x": ix}), ix
+            ei, et, rg = pg.expr(rnd.choice([0, 1, 1, 2]), allow_sig)
+            si = pg.stmt({"k": "seti", "x": a, "e": ei, "e2": ii})
+            pre = "%s[%s] = " % (a, it)
+            lines.append((ind, pre + et + ";", rg, si, len(pre)))
+            return si
         if t in ("G", "Q"):
             pg.nsig += 1
             inter = effects and pg.nsig % 2 == 0
@@ -181,7 +222,9 @@ def instantiate(toks, P, seed, template, effects=False):
             kw = "while" if t == "wh" else "if"
             lines.append((ind, "%s (%s) {" % (kw, et), rg, si, len(kw) + 2))
             saved = list(pg.locals_)
+            saved_arr = list(pg.arrays)
             kids = lst(ind + 1)
+            pg.arrays[:] = saved_arr
             pg.locals_[:] = saved        # names declared in the block go out of scope (a later declaration re-initialises them)
             body = pg.stmt({"k": "blk", "kids": kids})
             pg.stmts[si - 1]["t"] = body
@@ -189,6 +232,7 @@ def instantiate(toks, P, seed, template, effects=False):
                 lines.append((ind, "} else {", [], 0, 0))
                 kids2 = lst(ind + 1)
                 pg.locals_[:] = saved
+                pg.arrays[:] = saved_arr
                 body2 = pg.stmt({"k": "blk", "kids": kids2})
                 pg.stmts[si - 1]["f"] = body2
             lines.append((ind, "}", [], 0, 0))
@@ -280,7 +324,7 @@ def build_expr(pg, toks, pos, amap, P):
 
 
 FUNC_CTX = ["f_direct", "f_join", "f_partial", "f_loop"]
-TEMPL_CTX = ["t_direct", "t_constrain", "t_local", "t_loop", "t_join"]
+TEMPL_CTX = ["t_direct", "t_constrain", "t_local", "t_loop", "t_join", "t_array_if", "t_array_seq"]
 
 
 def expr_program(toks, ctx, P):
@@ -394,6 +438,39 @@ def expr_program(toks, ctx, P):
             pg.stmts[c - 1]["t"] = pg.stmt({"k": "blk", "kids": [b1, b2]})
             kids.append(c)
             kids.append(simple("nop", "o1", atom_expr(var("w")), "o1 <-- "))
+        elif ctx in ("t_array_if", "t_array_seq"):
+            # element-wise updates of a local array in different blocks, then a read of one element
+            def idx_expr(arr, i):
+                ii = num(i)
+                ix = pg.node({"k": "idx", "x": arr, "l": ii})
+                t = "%s[%d]" % (arr, i)
+                return (ix, t, [(ii, len(arr) + 1, len(arr) + 2), (ix, 0, len(t))])
+
+            def seti(arr, i, etoks_or_tuple, ind):
+                ii = num(i)
+                if isinstance(etoks_or_tuple, tuple):
+                    ei, et, rg = etoks_or_tuple
+                else:
+                    ei, et, rg = build_expr(pg, etoks_or_tuple, [0], amap, P)
+                si = pg.stmt({"k": "seti", "x": arr, "e": ei, "e2": ii})
+                pre = "%s[%d] = " % (arr, i)
+                lines.append((ind, pre + et + ";", rg, si, len(pre)))
+                return si
+            da = pg.stmt({"k": "decla", "x": "arr", "t": 2})
+            lines.append((1, "var arr[2];", [], da, 0))
+            kids.append(da)
+            kids.append(seti("arr", 0, toks, 1))
+            if ctx == "t_array_if":
+                c = simple("if", "", binx("greater", atom_expr(var("n")), lit_expr(0)), "if (", ind=1)
+                lines[-1] = (1, lines[-1][1][:-2] + ") {", lines[-1][2], lines[-1][3], lines[-1][4])
+                b1 = seti("arr", 1, lit_expr(1), 2)
+                b2 = simple("nop", "o1", idx_expr("arr", 0), "o1 <-- ", ind=2)
+                lines.append((1, "}", [], 0, 0))
+                pg.stmts[c - 1]["t"] = pg.stmt({"k": "blk", "kids": [b1, b2]})
+                kids.append(c)
+            else:
+                kids.append(seti("arr", 1, lit_expr(1), 1))
+                kids.append(simple("nop", "o1", idx_expr("arr", 0), "o1 <-- "))
         elif ctx == "t_join":
             kids.append(simple("set", "w", toks, "var w = "))
             c = simple("if", "", binx("eq", atom_expr(var("n")), lit_expr(1)), "if (", ind=1)
@@ -431,7 +508,7 @@ def assemble(pg, lines, root, template):
     return text, prog, ranges, stmt_span
 
 
-KCLASS = {"infix": "bin", "prefix": "un", "switch": "tern", "var": "var", "num": "num"}
+KCLASS = {"infix": "bin", "prefix": "un", "switch": "tern", "var": "var", "num": "num", "access": "idx"}
 
 
 def claims_from(doc, prog, ranges, stmt_span, P, want=("val", "deg")):
@@ -472,6 +549,9 @@ def claims_from(doc, prog, ranges, stmt_span, P, want=("val", "deg")):
                 walk(e[f])
         for a in e.get("args", []) or []:
             walk(a)
+        for a in e.get("acc", []) or []:
+            if isinstance(a, dict) and "i" in a:
+                walk(a["i"])
     for b in doc["ssa"]["blocks"]:
         for s in b["stmts"]:
             for f in ("rhe", "cond", "value", "lhe", "arg"):
@@ -540,12 +620,19 @@ def run_check(prop, tier, want, budgets=False):
     gstates = ggen = 0
     for template in (False, True):
         c = os.path.join(wd, "gen.cfg")
-        open(c, "w").write("SPECIFICATION Spec\nCONSTANTS\n  MaxSteps = %d\n  MaxLen = 24\n  Template = %s\nINVARIANT Emit\nCHECK_DEADLOCK FALSE\n" %
+        open(c, "w").write("SPECIFICATION Spec\nCONSTANTS\n  MaxSteps = %d\n  MaxLen = 24\n  Template = %s\n  Arrays = FALSE\nINVARIANT Emit\nCHECK_DEADLOCK FALSE\n" %
                            (steps if not template else steps - 1, "TRUE" if template else "FALSE"))
         g = run_tlc("SemGen", c, name, workers=8, cases_suffix="-%s" % template, timeout=1800)
         gstates += g.distinct
         ggen += g.generated
         skels += [(x["toks"], template) for x in read_ndjson(g.cases_path)]
+        # skeletons with local arrays (declaration, element-wise assignment; reads come from the expression atoms)
+        open(c, "w").write("SPECIFICATION Spec\nCONSTANTS\n  MaxSteps = %d\n  MaxLen = 24\n  Template = %s\n  Arrays = TRUE\nINVARIANT Emit\nCHECK_DEADLOCK FALSE\n" %
+                           (steps - 2, "TRUE" if template else "FALSE"))
+        ga = run_tlc("SemGen", c, name, workers=8, cases_suffix="-arr%s" % template, timeout=1800)
+        gstates += ga.distinct
+        ggen += ga.generated
+        skels += [(x["toks"], template) for x in read_ndjson(ga.cases_path) if "DA" in x["toks"] and "SA" in x["toks"]]
     # expressions: depth 1 exhaustively (all operators x all atom pairs), depth 2 by TLC's simulation mode
     ALLB = '"mul", "div", "add", "sub", "pow", "idiv", "mod_op", "shift_l", "shift_r", "lesser_eq", "greater_eq", "lesser", "greater", "eq", "not_eq", "bool_or", "bool_and", "bit_or", "bit_and", "bit_xor"'
     ec = os.path.join(wd, "expr.cfg")
@@ -575,7 +662,7 @@ def run_check(prop, tier, want, budgets=False):
                 text, prog, ranges, span = instantiate(toks, P, seed * 1000003 + k * 17 + j, template)
                 progs.append((text, prog, ranges, span))
         # ---- second family: every expression of ExprGen.tla in the data-flow contexts
-        ctxs = {"C06": FUNC_CTX, "C07": TEMPL_CTX, "C20": ["f_join", "f_loop", "t_loop", "t_join"]}[prop]
+        ctxs = {"C06": FUNC_CTX, "C07": TEMPL_CTX, "C20": ["f_join", "f_loop", "t_loop", "t_join", "t_array_if"]}[prop]
         for ec in expr_cases:
             for ctx in ctxs:
                 progs.append(expr_program(ec, ctx, P))
@@ -755,7 +842,7 @@ def run_effects(tier):
     skels, gstates, ggen = [], 0, 0
     for template in (False, True):
         c = os.path.join(wd, "gen.cfg")
-        open(c, "w").write("SPECIFICATION Spec\nCONSTANTS\n  MaxSteps = %d\n  MaxLen = 24\n  Template = %s\nINVARIANT Emit\nCHECK_DEADLOCK FALSE\n" %
+        open(c, "w").write("SPECIFICATION Spec\nCONSTANTS\n  MaxSteps = %d\n  MaxLen = 24\n  Template = %s\n  Arrays = FALSE\nINVARIANT Emit\nCHECK_DEADLOCK FALSE\n" %
                            (steps if not template else steps - 1, "TRUE" if template else "FALSE"))
         g = run_tlc("SemGen", c, name, workers=8, cases_suffix="-%s" % template, timeout=1800)
         gstates += g.distinct
